@@ -274,7 +274,10 @@ class Interp:
             if d and d.startswith("self."):
                 return V(sym=("attr", d))
             b = ev(e.value)
-            return V(at=all_at(b), kinds=all_kinds(b))
+            out_ = V(at=all_at(b), kinds=all_kinds(b))
+            if not all_at(b) and not all_kinds(b) and b.none is not True and not (isinstance(b.sym, tuple) and b.sym and b.sym[0] in ("const", "key")):
+                out_.src = "opaque"  # a field of an object the interpreter knows nothing about
+            return out_
         if isinstance(e, ast.Subscript):
             b = ev(e.value)
             if b.tup is not None and isinstance(e.slice, ast.Constant) and isinstance(e.slice.value, int) and -len(b.tup) <= e.slice.value < len(b.tup):
@@ -318,6 +321,8 @@ class Interp:
 
     def _call(self, fi: FuncInfo, e: ast.Call, env, events, depth, node, facts) -> V:
         argvals = [self.eval(fi, a, env, events, depth, node, facts) for a in e.args if not isinstance(a, ast.Starred)]
+        # f(*t): the elements of t are arguments too (an object built from the tuple an evaluation returned carries its temperature)
+        starvals = [self.eval(fi, a.value, env, events, depth, node, facts) for a in e.args if isinstance(a, ast.Starred)]
         kwvals = {k.arg: self.eval(fi, k.value, env, events, depth, node, facts) for k in e.keywords if k.arg}
         # callable value (closure / callable parameter)
         callee_fi: Optional[FuncInfo] = None
@@ -375,7 +380,7 @@ class Interp:
                     return j
         at = frozenset()
         kinds = frozenset()
-        for v in argvals + list(kwvals.values()):
+        for v in argvals + starvals + list(kwvals.values()):
             at |= all_at(v)
             kinds |= all_kinds(v)
         if isinstance(e.func, ast.Attribute):
